@@ -4,6 +4,7 @@ package packageimport
 
 import (
 	"context"
+	"time"
 
 	"github.com/google/go-containerregistry/pkg/crane"
 	"k8s.io/apimachinery/pkg/types"
@@ -36,4 +37,39 @@ func (r *RequestManager) VerifReceivers(image string) (n int, present bool) {
 	defer r.inFlightLock.Unlock()
 	l, ok := r.inFlight[image]
 	return len(l), ok
+}
+
+// VerifTryReceivers is VerifReceivers with TryLock: locked=false means the lock is
+// currently held by somebody else (n and present are then meaningless).
+func (r *RequestManager) VerifTryReceivers(image string) (n int, present, locked bool) {
+	if !r.inFlightLock.TryLock() {
+		return 0, false, false
+	}
+	defer r.inFlightLock.Unlock()
+	l, ok := r.inFlight[image]
+	return len(l), ok, true
+}
+
+// VerifStallBroadcast registers, under inFlightLock, an extra UNBUFFERED receiver at the
+// head of inFlight[image], so that the next broadcast for the image blocks on its first
+// send until the returned function is called. release receives and drops that response;
+// it gives up after d and reports false if no broadcast ever reached the stall.
+// ok=false (nothing registered) when the image has no entry.
+func (r *RequestManager) VerifStallBroadcast(image string) (release func(d time.Duration) bool, ok bool) {
+	r.inFlightLock.Lock()
+	defer r.inFlightLock.Unlock()
+	l, present := r.inFlight[image]
+	if !present {
+		return nil, false
+	}
+	ch := make(chan response)
+	r.inFlight[image] = append([]chan<- response{ch}, l...)
+	return func(d time.Duration) bool {
+		select {
+		case <-ch:
+			return true
+		case <-time.After(d):
+			return false
+		}
+	}, true
 }
